@@ -1046,11 +1046,16 @@ class HistogramBase(abc.ABC):
                 raise ZeroDivisionError("Cannot divide a histogram by zero.")
             other2 = (other.item() if isinstance(other, np.generic) else other) ** 2
             self._coerce_dtype(np.float64)
-            self.frequencies = self.frequencies / other
-            self.errors2 = self.errors2 / other2
-            self._missed /= other
+            # (all computed before the first assignment: a refused quotient changes nothing)
+            new_frequencies = self.frequencies / other
+            new_errors2 = self.errors2 / other2
+            new_missed = self._missed / other
+            reciprocal = 1 / other
+            self.frequencies = new_frequencies
+            self.errors2 = new_errors2
+            self._missed = new_missed
             if hasattr(self, "_stats"):
-                self._stats *= 1 / other
+                self._stats *= reciprocal
         elif config.free_arithmetics:  # Treat other as array-like
             self._coerce_dtype(np.float64)
             array = np.asarray(other)
